@@ -56,6 +56,50 @@ def activePresent (ss : List PC) (t : Assign) : List (PC × PVal) :=
 def presentedSpec (ss : List PC) (t : Assign) : List (String × Except Err (Option PVal)) :=
   (activePresent ss t).map fun pv => (pv.1.name, cast pv.1.h.ext pv.2)
 
+
+/-- `cast` with the OverflowError of `as_int(±inf)` read as "no value" (specification side) -/
+def castV (e : ExtType) (v : PVal) : Option PVal :=
+  match cast e v with
+  | .ok x => x
+  | .error _ => none
+
+mutual
+/-- what is presented below and including `p`, given whether `p`'s parent condition holds
+(`g`): nothing unless the trial carries `p`; then `p` and, for each child, recursively,
+with the condition "the stored value of `p` equals the child's subspace key" -/
+def takenOf (t : Assign) (g : Bool) : PC → List (String × Option PVal)
+  | .mk h kids =>
+    match (if g then lookup t h.name else none) with
+    | none => []
+    | some v => (h.name, castV h.ext v) :: takenKids t v kids
+def takenKids (t : Assign) (v : PVal) : List (PVal × PC) → List (String × Option PVal)
+  | [] => []
+  | (k, c) :: rest => takenOf t (pyEq v k) c ++ takenKids t v rest
+end
+
+/-- the presentation of a whole space, in preorder -/
+def takenSpace (t : Assign) : List PC → List (String × Option PVal)
+  | [] => []
+  | p :: ps => takenOf t true p ++ takenSpace t ps
+
+
+/-! ## names are unique within every subspace (what `SearchSpace.add` guarantees) -/
+
+def kidsDistinct : List (PVal × PC) → Bool
+  | [] => true
+  | (k, c) :: rest => (rest.all fun kc => !(pyEq k kc.1 && c.name == kc.2.name)) && kidsDistinct rest
+
+mutual
+def sibOK : PC → Bool
+  | .mk _ kids => kidsDistinct kids && sibKids kids
+def sibKids : List (PVal × PC) → Bool
+  | [] => true
+  | (_, c) :: rest => sibOK c && sibKids rest
+end
+
+def siblingUnique (ss : List PC) : Bool :=
+  decide ((names ss).Nodup) && ss.all sibOK
+
 /-- every parameter the trial carries is an active parameter of the space -/
 def trialKnown (ss : List PC) (t : Assign) : Bool :=
   (keys t).all fun n => ((activePresent ss t).map (·.1.name)).contains n
